@@ -313,7 +313,9 @@ def default_coordinates(case, ctx):
         rb = zl[far] / np.conj(zt[far])
         # the centroid itself is only known to ~eps * array size (in samples); for a sample at distance s from it
         # that is a relative error eps*size/s in the ratio below
-        ptol = 1e-9 + 256 * np.finfo(float).eps * max(mask.shape) / (np.abs(zt[far]) * dmax)
+        # (a centroid is a ratio of two sums over all masked samples: its rounding error grows with their number - up to
+        # ~1e-11 samples for 6e4 of them -, which matters for a sample that lies 1e-5 samples from the centroid)
+        ptol = 1e-9 + 64 * np.finfo(float).eps * max(mask.shape) * max(4.0, np.sqrt(len(idx))) / (np.abs(zt[far]) * dmax)
         k0 = int(np.argmax(np.abs(zt[far])))             # reference direction from the farthest sample
         ok = (np.all(np.abs(ra - ra[k0]) < ptol) and abs(abs(ra[k0]) - 1) < 1e-9) or \
              (np.all(np.abs(rb - rb[k0]) < ptol) and abs(abs(rb[k0]) - 1) < 1e-9)
